@@ -130,6 +130,8 @@ Arguments c_var {val var}.
 (* ------------------------------------------------------------------------------------------------
    Concrete instance used by the correspondence check: the typed targets of the harness.
    kind 0 flag(store_true) 1 flag(store_false) 2 int 3 std::string 4 std::vector<int> 5 ValueMap store<int> 6 custom notifier
+        7 ValueMap flag(store_true) 8 ValueMap flag(store_false)   (mapped_value.h flag(ValueMap&, FlagAction): the bool lives in the map,
+          absent until the first accepted value; afterwards the NotifiedValue parses in place, like kind 5)
    Values and variable contents are encoded as lists of integers.  The int scanner covers the decimal
    sublanguage of parseSigned ([+-]?digits without a leading 0 before another digit/x; no keywords, no leading blank).
    ------------------------------------------------------------------------------------------------ *)
@@ -210,8 +212,8 @@ Definition vec_conv (s : str) : option (list Z) * list Z :=
   end.
 
 Definition k_parser (kind : Z) (s : str) : option (list Z) :=
-  if kind =? 0 then match s with [] => Some [1] | _ => match fst (bool_conv s) with Some b => Some [b] | None => None end end
-  else if kind =? 1 then match s with [] => Some [0] | _ => match fst (bool_conv s) with Some b => Some [1 - b] | None => None end end
+  if (kind =? 0) || (kind =? 7) then match s with [] => Some [1] | _ => match fst (bool_conv s) with Some b => Some [b] | None => None end end
+  else if (kind =? 1) || (kind =? 8) then match s with [] => Some [0] | _ => match fst (bool_conv s) with Some b => Some [1 - b] | None => None end end
   else if (kind =? 2) || (kind =? 5) then match fst (int_conv s) with Some v => Some [v] | None => None end
   else if kind =? 3 then Some s
   else if kind =? 4 then fst (vec_conv s)
@@ -227,6 +229,7 @@ Definition k_fail (kind : Z) (s : str) (v : list Z) : list Z :=
   else if kind =? 2 then match snd (int_conv s) with Some x => [x] | None => v end
   else if kind =? 4 then v ++ snd (vec_conv s)
   else if kind =? 5 then match v with [] => [] | _ => match snd (int_conv s) with Some x => [x] | None => v end end
+  else if kind =? 7 then match v with [] => [] | _ => match snd (bool_conv s) with Some b => [b] | None => v end end
   else v.
 
 Definition k_init (kind : Z) : list Z :=
@@ -258,7 +261,7 @@ Fixpoint dec_opts (n : nat) (l : list Z) : list copt * list Z :=
           let impl' := match impl with
                        | Some [] => Some IMPLICIT_DEFAULT
                        | Some i => Some i
-                       | None => if (kind =? 0) || (kind =? 1) then Some IMPLICIT_DEFAULT else None
+                       | None => if (kind =? 0) || (kind =? 1) || (kind =? 7) || (kind =? 8) then Some IMPLICIT_DEFAULT else None
                        end in
           let '(os, r3) := dec_opts n' r2 in
           (mkC kind (mkOpt (negb (comp =? 0)) impl' d) :: os, r3)
